@@ -28,6 +28,9 @@ def gen_workload(rng, nops):
             if prev and rng.random() < 0.4:
                 # the caller repeats its last SaveOffset (what a retry after an error looks like)
                 ops.append(dict(prev[-1]))
+            elif prev and rng.random() < 0.3:
+                # rewind: the same subscription is set back to the first event of the log
+                ops.append({"kind": "save", "sub": prev[-1]["sub"], "ack_ix": appends[0]})
             else:
                 ops.append({"kind": "save", "sub": rng.choice(["s1", "s2"]), "ack_ix": rng.choice(appends)})
         elif r < 0.9:
